@@ -1,27 +1,32 @@
 (* C14: the executable spec written from the property text ([spec_c14], Spec/SpecC14.v) holds of the
    world model.  Only pinned statements, closed by [exact], with their assumptions printed.
 
-   FULL statement (the goal):
-     forall ops, dom ops = true ->
+     forall ops, dom14 ops = true ->
        spec_c14 ops (run world0 ops) = true \/ known_c14 ops (run world0 ops) = true
-   for ALL operations of Model/World.v.  PROVED here ([..._partial]): the statement for the domain
-   [dom14] = [dom07] (see Proofs/C07SpecPinned.v: all operations except local metrics, timers
-   (OpTimer, OpTimerStop), OpDrop - missing - and OpCustom; const labels are maps; registries not cloned; no
-   FNV-1a collision between the dimension hashes of same-name descriptors of one registry;
-   unregistration by the slot that was registered). *)
+
+   for the histories of ALL operations of Model/World.v except OpCustom, [dom14] = [dom07] (see
+   Proofs/C07SpecPinned.v: no OpCustom; const labels are maps; registries not cloned; no FNV-1a
+   collision between the dimension hashes of same-name descriptors of one registry; unregistration
+   by the slot that was registered).  The [..._partial] names are kept as aliases. *)
 Require Import PV.Base.Prelude PV.Base.F64.
 Require Import PV.Model.Proto PV.Model.Desc PV.Model.Value PV.Model.Registry PV.Model.World.
 Require Import PV.Proofs.C07SpecStep PV.Proofs.C07SpecRegs PV.Proofs.C07Spec PV.Proofs.C14Spec.
 Require Import PV.Spec.SpecC07 PV.Spec.SpecC14.
 
-Theorem c14_spec_model_partial : forall ops, dom14 ops = true ->
+Theorem c14_spec_of_model : forall ops, dom14 ops = true ->
   spec_c14 ops (run world0 ops) = true \/ known_c14 ops (run world0 ops) = true.
 Proof. exact c14_spec_model. Qed.
+Theorem c14_spec_model_partial : forall ops, dom14 ops = true ->
+  spec_c14 ops (run world0 ops) = true \/ known_c14 ops (run world0 ops) = true.
+Proof. exact c14_spec_of_model. Qed.
 (* the sharper form: every gathered family is homogeneous and back-to-back gathers declare the same
    types unless collectors of different kinds are registered under one name in one registry *)
-Theorem c14_spec_strict_partial : forall ops, dom14 ops = true ->
+Theorem c14_spec_of_model_strict : forall ops, dom14 ops = true ->
   mixed_kinds_registered ops (run world0 ops) = false -> spec_c14 ops (run world0 ops) = true.
 Proof. exact c14_spec_strict. Qed.
+Theorem c14_spec_strict_partial : forall ops, dom14 ops = true ->
+  mixed_kinds_registered ops (run world0 ops) = false -> spec_c14 ops (run world0 ops) = true.
+Proof. exact c14_spec_of_model_strict. Qed.
 
 Example c14_dom_many_labels : dom14 ex_many_labels = true /\ spec_c14 ex_many_labels (run world0 ex_many_labels) = true.
 Proof. exact ex_many_labels_c14. Qed.
@@ -30,10 +35,20 @@ Proof. exact ex_gathergen_c14. Qed.
 Example c14_dom_witness : dom14 ex_c14_witness = true /\ known_c14 ex_c14_witness (run world0 ex_c14_witness) = true.
 Proof. exact ex_c14_witness_c14. Qed.
 
+Example c14_dom_locals_drop : dom14 ex_locals_drop = true /\ spec_c14 ex_locals_drop (run world0 ex_locals_drop) = true.
+Proof. exact ex_locals_drop_c14. Qed.
+
+Check c14_spec_of_model : forall ops, dom14 ops = true ->
+  spec_c14 ops (run world0 ops) = true \/ known_c14 ops (run world0 ops) = true.
+Check c14_spec_of_model_strict : forall ops, dom14 ops = true ->
+  mixed_kinds_registered ops (run world0 ops) = false -> spec_c14 ops (run world0 ops) = true.
 Check c14_spec_model_partial : forall ops, dom14 ops = true ->
   spec_c14 ops (run world0 ops) = true \/ known_c14 ops (run world0 ops) = true.
 Check c14_spec_strict_partial : forall ops, dom14 ops = true ->
   mixed_kinds_registered ops (run world0 ops) = false -> spec_c14 ops (run world0 ops) = true.
+Print Assumptions c14_spec_of_model.
+Print Assumptions c14_spec_of_model_strict.
+Print Assumptions c14_dom_locals_drop.
 Print Assumptions c14_spec_model_partial.
 Print Assumptions c14_spec_strict_partial.
 Print Assumptions c14_dom_many_labels.
